@@ -1490,7 +1490,13 @@ pub fn mon_c20(out: &mut Out, l: &str, r: &str) {
             _ => return,
         }
     };
-    let verdict = if pdu[0] < 0x80 { spec::classify_response(&pdu) } else { Verdict::Unspecified };
+    let verdict = if pdu.is_empty() {
+        Verdict::Reject
+    } else if pdu[0] < 0x80 {
+        spec::classify_response(&pdu)
+    } else {
+        Verdict::Unspecified
+    };
     if verdict == Verdict::Reject {
         // not a reply of any kind (C08): no typed method may report success for it
         out.check(!got.starts_with("ok "), || format!("typed method reports success `{got}` for a malformed reply PDU {}", super::codec::trunc(&hex(&pdu))), l);
